@@ -14,6 +14,7 @@ import (
 	"go/ast"
 	"go/token"
 	"math/big"
+	"regexp"
 	"strconv"
 	"strings"
 )
@@ -23,7 +24,50 @@ type trCtx struct {
 	ren   map[string]string // Go ident or "x.Field" → Lean term; "nil:x" → Lean Bool for `x == nil`
 	calls map[string]string // Go function name → Lean function (applied to translated args)
 	what  string
+	nat   map[string]bool // Lean variables of the signature typed `Nat` / `List Nat`: operands that cannot be negative
 	trOpts
+}
+
+var natParam = regexp.MustCompile(`\(([A-Za-z0-9_' ]+?) : (?:List )?Nat\)`)
+
+// unsignedOK: may a conversion to an unsigned Go type be read as the identity? Only when its operand is built from
+// literals, `len(…)` and variables the Lean signature types as Nat (bytes, unsigned words, lengths) — a signed
+// operand (`uint(year)`) wraps in Go and would not in the model.
+func (t *trCtx) unsignedOK(e ast.Expr) bool {
+	switch e := e.(type) {
+	case *ast.BasicLit:
+		return true
+	case *ast.ParenExpr:
+		return t.unsignedOK(e.X)
+	case *ast.Ident:
+		if r, ok := t.ren[e.Name]; ok {
+			return t.nat[r]
+		}
+		_, isConst := t.p.consts[e.Name]
+		return isConst
+	case *ast.SelectorExpr:
+		if x, ok := e.X.(*ast.Ident); ok {
+			if r, ok := t.ren[x.Name+"."+e.Sel.Name]; ok {
+				return t.nat[r]
+			}
+		}
+		return false
+	case *ast.IndexExpr:
+		return t.unsignedOK(e.X)
+	case *ast.BinaryExpr:
+		return t.unsignedOK(e.X) && t.unsignedOK(e.Y)
+	case *ast.CallExpr:
+		if id, ok := e.Fun.(*ast.Ident); ok && id.Name == "len" {
+			return true
+		}
+		if id, ok := e.Fun.(*ast.Ident); ok && len(e.Args) == 1 {
+			switch id.Name {
+			case "uint64", "uint", "uint8", "byte", "uint32", "uint16":
+				return t.unsignedOK(e.Args[0])
+			}
+		}
+	}
+	return false
 }
 
 // sval is a struct-valued Go expression (`d.from`, `date`, `*to`, `v`): its fields and the Lean term of each.
@@ -325,10 +369,19 @@ func (t *trCtx) exprU(e ast.Expr) string {
 			if id.Name == "len" && len(e.Args) == 1 {
 				return "(" + t.expr(e.Args[0]) + ").length"
 			}
-			// numeric conversions are the identity on the unbounded model types
+			// Numeric conversions: only the widening ones (`int`, `int64`, `Month` of a narrower or equally wide
+			// signed operand, as the library uses them) are the identity on the unbounded model types. A conversion
+			// that can wrap or change sign (`uint(x)`, `uint64(x)`, `uint8/byte(x)`, `int32/int16/int8(x)`,
+			// `uint32/uint16(x)`) is outside the fragment: without type information the translation would be
+			// unsound (`uint(year)%100` for a negative year), so the function is reported MISSING instead.
 			switch id.Name {
-			case "int", "int32", "int64", "uint8", "uint64", "byte", "Month", "uint":
+			case "int", "int64", "Month":
 				if len(e.Args) == 1 {
+					return t.expr(e.Args[0])
+				}
+			case "uint64", "uint":
+				// widening of an operand that cannot be negative (see unsignedOK); narrowing ones stay MISSING
+				if len(e.Args) == 1 && t.unsignedOK(e.Args[0]) {
 					return t.expr(e.Args[0])
 				}
 			}
@@ -595,7 +648,12 @@ func translateFuncX(p *pkg, goName, leanName, sig string, ren, calls map[string]
 		}
 		return strings.ReplaceAll(k, "$r", pos["$r"])
 	}
-	t := &trCtx{p: p, ren: map[string]string{}, calls: calls, what: p.name + "." + goName, trOpts: o}
+	t := &trCtx{p: p, ren: map[string]string{}, calls: calls, what: p.name + "." + goName, trOpts: o, nat: map[string]bool{}}
+	for _, m := range natParam.FindAllStringSubmatch(sig, -1) {
+		for _, v := range strings.Fields(m[1]) {
+			t.nat[v] = true
+		}
+	}
 	for k, v := range ren {
 		t.ren[subst(k)] = v
 	}
